@@ -14,21 +14,54 @@
       - the specifications started from a given weight function
         (`whR2BSpecFrom`, `whB2RSpecFrom`, `whR2RSpecFrom`; the old ones are the
         case of zero weights) and their append law `wh_*_spec_append`;
-      - one call with `weights = w`: `wh_r2b_continue`, `wh_b2r_continue`,
-        `wh_r2r_continue` — the model succeeds when the real-side labels of `w`
-        are the table's dimension labels (exactly the check of wh.py), returns
-        the old binary-side labels in their old positions followed by the new
-        ones, and denotes the specification continued from the weight function
-        `w` denotes; read through the labels: `wh_*_continue_get`; wrong
-        real-side labels ⇒ `ValueError`: `wh_continue_wrong_labels_raise`;
-        `weights=None` behaves like the empty (zero) matrix: `wh_none_is_empty_matrix`;
+      - one call with `weights = w`, what each flavour does with the REAL-side
+        labels of `w` (reproduced on the real code, see PyndlModel/WHModel.lean;
+        the review found the former claim "wrong real-side labels ⇒ ValueError,
+        exactly the check of wh.py" FALSE for two flavours):
+          · binary → real compares the label lists: `wh_b2r_continue`,
+            `wh_continue_label_check_b2r` (succeeds iff identical, else `ValueError`);
+          · real → binary does NOT compare them (`all(a == b)` on xarray
+            coordinates is label-aligned and never False) and uses the values
+            by POSITION: `wh_r2b_continue` (hypotheses: same number of columns,
+            the comparison does not raise), `wh_continue_label_check_r2b`
+            (succeeds iff these two hold; the labels of `w` are ignored);
+          · real → real selects by label: a permutation is re-aligned
+            (`wh_r2r_continue`), a different shape ⇒ `ValueError`, a missing
+            label ⇒ `KeyError`, a repeated label ⇒ `InvalidIndexError`:
+            `wh_continue_label_check_r2r` (succeeds iff permutation of
+            duplicate-free labels);
+        the result is always labelled with the TABLE's dimensions
+        (`wh_result_carries_table_labels`) and denotes the specification
+        continued from the weight function `w` denotes; read through the labels:
+        `wh_*_continue_get`; `weights=None` behaves like the empty (zero)
+        matrix: `wh_none_is_empty_matrix`;
       - chains (`whChainRun`: same flavour, tables and learning parameters,
         per part its own duplicate policy and `n_outcomes_per_job`, every call
         continuing from the previous result): `wh_chain_two`,
         `wh_chain_any_length` (induction over the list of parts; the label /
         shape conditions on the intermediate matrices are an invariant, not a
-        hypothesis), `wh_chain_eq_single_call` (= ONE call over the whole file
-        at every pair of labels, when all parts use the same policy).
+        hypothesis: `wh_chain_weights_carry_table_labels` — every `weights=`
+        argument inside a chain has the table's labels, so the label-tolerant
+        branches above are never reached in a chain), `wh_chain_eq_single_call`
+        (= ONE call over the whole file at every pair of labels, when all parts
+        use the same policy).
+
+  Hypotheses about labels (to be listed in DESIGN §7):
+  * `names.Nodup` of every vector table (in `WhTablesOK`, `hnd…`): wh.py's id
+    map `OrderedDict((name, i) …)` takes the LAST row of a repeated row label,
+    the model's `idxOf` the FIRST; with distinct row labels both are the same
+    map.  The proofs do not use the hypothesis (the theorems are true of the
+    model without it); it marks where the model is known to be the code.
+  * `Nodup` of the binary-side labels of given weights (`hwn`), same reason;
+    every matrix `wh.wh` returns has it.
+  * real → real chains: `dims.Nodup` of both tables (in `WhTablesOK`); this one
+    IS used: with a repeated dimension label every continued call raises.
+
+  Observation (not a violation of C03 / C08 as stated): real → binary silently
+  accepts weights whose cue-dimension labels are wrong or permuted and uses
+  them by position (`wh_continue_label_check_r2b`, example below); the
+  `ValueError("Cue vector dimensions names do not match …")` of wh.py 628 is
+  unreachable (the comparison before it is never False).
 
   partial:
   * the ORDER in which wh.py appends new binary-side labels is
@@ -39,12 +72,11 @@
     model's order; "old labels keep their position" holds for both.
   * given weights whose binary-side labels contain a duplicate: wh.py's
     `OrderedDict` id map takes the LAST position of a repeated label, the model
-    (`idxOf`) the FIRST.  The theorems hold for the model as it is; every matrix
-    `wh.wh` itself returns has duplicate-free binary-side labels, so chains are
-    not affected.
-  * real → real needs `w.vals.size = rows * cols` (a DataArray invariant, which
-    wh.py checks as `weights.shape == shape`); for the other two flavours the
-    model re-allocates (`np.concatenate`) and nothing about the size is assumed.
+    (`idxOf`) the FIRST.  The continuation theorems carry `hwn` (no duplicate);
+    every matrix `wh.wh` itself returns has duplicate-free binary-side labels,
+    so chains are not affected.
+  * nothing is assumed about the size of the value array of given weights (all
+    three flavours allocate a new array: `np.concatenate` / `.loc[…].copy()`).
   * not modelled here: `method='numpy'` (single cue / single outcome events),
     `dict_wh`, the attrs of the returned DataArray, and that the DataArray
     handed in is not modified (C03 decides the latter by the differential run).
@@ -53,12 +85,15 @@ import PyndlProofs.WH
 import PyndlProofs.WHSpec
 import PyndlProofs.WHChain
 
+set_option linter.unusedVariables false  -- the `Nodup` label hypotheses delimit model = code, the proofs do not use them
+
 namespace Pyndl.C08
 open Pyndl List
 
 variable {R : Type} [CommRing R]
 
-/-- the delta rule on one weight row: `W[d,:] += η (t_d − W[d,:]·x) x` -/
+/-- (definitional: unfolds `whRowReal`) the delta rule on one weight row:
+    `W[d,:] += η (t_d − W[d,:]·x) x` -/
 theorem delta_rule_row (n : Nat) (x : Nat → R) (eta t : R) (w : Nat → R) (k : Nat) (hk : k < n) :
     whRowReal n x (fun a => eta * (t - a)) w k
       = w k + eta * (t - ((List.range n).map (fun j => x j * w j)).sum) * x k := by
@@ -126,8 +161,10 @@ theorem wh_driver_eq_spec {n nOut : Nat} {ok : Event Nat Nat → Prop}
     ids = counting order, duplicate policy on ids, OpenMP entry point with any
     `n_outcomes_per_job ≥ 1`, labels) returns at every (outcome name, cue
     dimension label) the delta rule run over the policy-processed events with
-    `x = Σ cue vectors (by name)`, target `λ·[o ∈ outcomes]`, rates β₁/β₂ -/
-theorem wh_r2b_end_to_end (p : DupPolicy) (eta β₁ β₂ lam : R) (ct : VecTable R)
+    `x = Σ cue vectors (by name)`, target `λ·[o ∈ outcomes]`, rates β₁/β₂.
+    `hnd`: the row labels of the table are distinct (file header; not used by
+    the proof — the model looks a name up at its FIRST row, the code at its LAST) -/
+theorem wh_r2b_end_to_end (p : DupPolicy) (eta β₁ β₂ lam : R) (ct : VecTable R) (hnd : ct.names.Nodup)
     (chunk : Nat) (hc : 1 ≤ chunk) (es es' : List (Event String String))
     (htab : ∀ e ∈ es, ∀ c ∈ e.cues, c ∈ ct.names) (hp : applyPolicyAll p es = some es') :
     ∃ w, whModel .r2b p eta β₁ β₂ lam (some ct) none chunk none es = .ok w ∧
@@ -136,7 +173,7 @@ theorem wh_r2b_end_to_end (p : DupPolicy) (eta β₁ β₂ lam : R) (ct : VecTab
 
 /-- **`wh.wh`, real → real, end to end on names** (`_wh_real_to_real`, openmp) -/
 theorem wh_r2r_end_to_end (p : DupPolicy) (eta β₁ β₂ lam : R) (ct ot : VecTable R)
-    (chunk : Nat) (hc : 1 ≤ chunk) (es es' : List (Event String String))
+    (hndc : ct.names.Nodup) (hndo : ot.names.Nodup) (chunk : Nat) (hc : 1 ≤ chunk) (es es' : List (Event String String))
     (htabc : ∀ e ∈ es, ∀ c ∈ e.cues, c ∈ ct.names) (htabo : ∀ e ∈ es, ∀ o ∈ e.outcomes, o ∈ ot.names)
     (hp : applyPolicyAll p es = some es') :
     ∃ w, whModel .r2r p eta β₁ β₂ lam (some ct) (some ot) chunk none es = .ok w ∧
@@ -146,7 +183,7 @@ theorem wh_r2r_end_to_end (p : DupPolicy) (eta β₁ β₂ lam : R) (ct ot : Vec
   whModel_r2r_eq_spec_names p eta β₁ β₂ lam ct ot chunk hc es es' htabc htabo hp
 
 /-- **`wh.wh`, binary cues → real outcomes, end to end on names** (`_wh_binary_to_real`) -/
-theorem wh_b2r_end_to_end (p : DupPolicy) (eta β₁ β₂ lam : R) (ot : VecTable R)
+theorem wh_b2r_end_to_end (p : DupPolicy) (eta β₁ β₂ lam : R) (ot : VecTable R) (hndo : ot.names.Nodup)
     (chunk : Nat) (hc : 1 ≤ chunk) (es es' : List (Event String String))
     (htabo : ∀ e ∈ es, ∀ o ∈ e.outcomes, o ∈ ot.names) (hp : applyPolicyAll p es = some es') :
     ∃ w, whModel .b2r p eta β₁ β₂ lam none (some ot) chunk none es = .ok w ∧
@@ -163,7 +200,18 @@ theorem wh_missing_vector_raises (p : DupPolicy) (eta β₁ β₂ lam : R) (ct :
     whModel .r2b p eta β₁ β₂ lam (some ct) none chunk W0 es = .error .value :=
   whModel_r2b_tableError p eta β₁ β₂ lam ct chunk W0 es hbad
 
-/-- single-cue / single-outcome events (the domain of method='numpy' and
+/-- … the same for the other two flavours (an outcome without a vector; real →
+    real: a cue or an outcome without a vector) -/
+theorem wh_missing_vector_raises_b2r_r2r (p : DupPolicy) (eta β₁ β₂ lam : R) (ct ot : VecTable R) (chunk : Nat)
+    (W0 : Option (LW R)) (es : List (Event String String)) :
+    ((∃ e ∈ es, ∃ o ∈ e.outcomes, o ∉ ot.names) →
+      whModel .b2r p eta β₁ β₂ lam none (some ot) chunk W0 es = .error .value) ∧
+    ((∃ e ∈ es, ∃ c ∈ e.cues, c ∉ ct.names) ∨ (∃ e ∈ es, ∃ o ∈ e.outcomes, o ∉ ot.names) →
+      whModel .r2r p eta β₁ β₂ lam (some ct) (some ot) chunk W0 es = .error .value) :=
+  ⟨whModel_b2r_tableError p eta β₁ β₂ lam ot chunk W0 es,
+    whModel_r2r_tableError p eta β₁ β₂ lam ct ot chunk W0 es⟩
+
+/-- (definitional) single-cue / single-outcome events (the domain of method='numpy' and
     `dict_wh`): the input vector is the cue's vector, the target the outcome's -/
 theorem single_cue_outcome (cueVecs outVecs : Array R) (nCueDims nOutDims c o k d : Nat) :
     summedCue cueVecs nCueDims k [c] = cueVecs.getD (nCueDims * c + k) 0 ∧
@@ -233,48 +281,60 @@ theorem wh_spec_pieces (eta β₁ β₂ lam : R) (ct ot : VecTable R) (pieces : 
   ⟨fun W => whR2BSpecFrom_flatten β₁ β₂ lam ct W pieces, fun W => whB2RSpecFrom_flatten eta ot W pieces,
     fun W => whR2RSpecFrom_flatten eta ct ot W pieces⟩
 
-/-- **continued `wh.wh`, real cue vectors → binary outcomes** (`weights = w`).
-    Hypotheses: `hc` `n_outcomes_per_job ≥ 1`; `htab` every cue of the events has
-    a row in `cue_vectors` (else `ValueError`); `hp` the duplicate policy accepts
-    the events; `hlab` the column labels of `w` are the cue vector dimensions of
-    the table, in order (else `ValueError`, `wh_continue_wrong_labels_raise`).
-    Nothing is assumed about the outcome labels of `w` or the size of its value
-    array.  Conclusion: the call succeeds; old outcomes keep their rows, the new
-    outcomes of the events are appended (in counting order); columns are the cue
-    vector dimensions; and the weight function the result denotes
-    (`LW.byOutcome`: outcome NAME, dimension position) is `whR2BSpecFrom`
-    continued from the weight function `w` denotes, on the policy-processed
-    events, for every chunk size. -/
-theorem wh_r2b_continue (p : DupPolicy) (eta β₁ β₂ lam : R) (ct : VecTable R)
-    (chunk : Nat) (hc : 1 ≤ chunk) (w : LW R) (es es' : List (Event String String))
+/-- **continued `wh.wh`, real cue vectors → binary outcomes** (`weights = w`), as
+    general as the code: the column labels of `w` are NOT compared with the
+    table's (wh.py 627 is a label-aligned xarray comparison that is never False).
+    Hypotheses: `hnd` distinct row labels of the table, `hwn` distinct outcome
+    labels of `w` (file header; not used by the proof); `hc` `n_outcomes_per_job
+    ≥ 1`; `htab` every cue of the events has a row in `cue_vectors` (else
+    `ValueError`); `hp` the duplicate policy accepts the events; `hlen` `w` has as
+    many columns as the cue vectors have dimensions (else `np.concatenate`
+    raises `ValueError`); `hal` the comparison does not RAISE: the label lists
+    are identical or both duplicate-free (else `ValueError`).  Nothing is
+    assumed about the size of the value array.  Conclusion: the call succeeds;
+    old outcomes keep their rows, the new outcomes of the events are appended
+    (in counting order); the columns are labelled with the TABLE's dimensions;
+    and the weight function the result denotes (`LW.byOutcome`: outcome NAME,
+    dimension POSITION) is `whR2BSpecFrom` continued from the weight function
+    `w` denotes BY POSITION, on the policy-processed events, for every chunk
+    size.  (`wh_continue_label_check_r2b`: exactly these `w` are accepted.) -/
+theorem wh_r2b_continue (p : DupPolicy) (eta β₁ β₂ lam : R) (ct : VecTable R) (hnd : ct.names.Nodup)
+    (chunk : Nat) (hc : 1 ≤ chunk) (w : LW R) (hwn : w.outcomes.Nodup) (es es' : List (Event String String))
     (htab : ∀ e ∈ es, ∀ c ∈ e.cues, c ∈ ct.names)
-    (hp : applyPolicyAll p es = some es') (hlab : w.cues = ct.dims) :
+    (hp : applyPolicyAll p es = some es') (hlen : w.cues.length = ct.dims.length)
+    (hal : ¬ alignRaises ct.dims w.cues) :
     ∃ r, whModel .r2b p eta β₁ β₂ lam (some ct) none chunk (some w) es = .ok r ∧
       r.outcomes = w.outcomes ++ (countNames es).2.filter (fun o => !w.outcomes.contains o) ∧
       r.cues = ct.dims ∧ r.vals.size = ct.dims.length * r.outcomes.length ∧
       r.byOutcome = whR2BSpecFrom β₁ β₂ lam ct w.byOutcome es' :=
-  whModel_r2b_continue p eta β₁ β₂ lam ct chunk hc w es es' htab hp hlab
+  whModel_r2b_continue_pos p eta β₁ β₂ lam ct chunk hc w es es' htab hp hlen hal
 
 /-- … read through the labels of the result, at EVERY (outcome name, label) -/
-theorem wh_r2b_continue_get (p : DupPolicy) (eta β₁ β₂ lam : R) (ct : VecTable R)
-    (chunk : Nat) (hc : 1 ≤ chunk) (w : LW R) (es es' : List (Event String String))
+theorem wh_r2b_continue_get (p : DupPolicy) (eta β₁ β₂ lam : R) (ct : VecTable R) (hnd : ct.names.Nodup)
+    (chunk : Nat) (hc : 1 ≤ chunk) (w : LW R) (hwn : w.outcomes.Nodup) (es es' : List (Event String String))
     (htab : ∀ e ∈ es, ∀ c ∈ e.cues, c ∈ ct.names)
-    (hp : applyPolicyAll p es = some es') (hlab : w.cues = ct.dims) :
+    (hp : applyPolicyAll p es = some es') (hlen : w.cues.length = ct.dims.length)
+    (hal : ¬ alignRaises ct.dims w.cues) :
     ∃ r, whModel .r2b p eta β₁ β₂ lam (some ct) none chunk (some w) es = .ok r ∧
       ∀ o d, r.get o d = if d ∈ ct.dims
-        then whR2BSpecFrom β₁ β₂ lam ct w.byOutcome es' o (ct.dims.idxOf d) else 0 :=
-  whModel_r2b_continue_get p eta β₁ β₂ lam ct chunk hc w es es' htab hp hlab
+        then whR2BSpecFrom β₁ β₂ lam ct w.byOutcome es' o (ct.dims.idxOf d) else 0 := by
+  obtain ⟨r, h1, _, h3, _, h5⟩ := whModel_r2b_continue_pos p eta β₁ β₂ lam ct chunk hc w es es' htab hp hlen hal
+  refine ⟨r, h1, ?_⟩
+  intro o d
+  rw [LW.get_eq_byOutcome, h3, h5]
 
 /-- **continued `wh.wh`, binary cues → real outcome vectors** (`weights = w`).
-    Hypotheses: `hc`, `hp` as above; `htabo` every outcome of the events has a
-    row in `outcome_vectors`; `hlab` the row labels of `w` are the outcome vector
-    dimensions of the table, in order.  Conclusion: old cues keep their columns,
-    the new cues of the events are appended; for every outcome vector dimension
-    `d` the row the result denotes (`LW.byCue`: dimension position, cue NAME) is
-    `whB2RSpecFrom` continued from the weight function `w` denotes — at every
-    cue name, for every chunk size. -/
-theorem wh_b2r_continue (p : DupPolicy) (eta β₁ β₂ lam : R) (ot : VecTable R)
-    (chunk : Nat) (hc : 1 ≤ chunk) (w : LW R) (es es' : List (Event String String))
+    Hypotheses: `hndo`, `hwn` distinct row labels of the table / cue labels of
+    `w` (file header); `hc`, `hp` as above; `htabo` every outcome of the events
+    has a row in `outcome_vectors`; `hlab` the row labels of `w` are the outcome
+    vector dimensions of the table, in order (this flavour DOES compare the
+    label lists: `wh_continue_label_check_b2r`).  Conclusion: old cues keep
+    their columns, the new cues of the events are appended; for every outcome
+    vector dimension `d` the row the result denotes (`LW.byCue`: dimension
+    position, cue NAME) is `whB2RSpecFrom` continued from the weight function
+    `w` denotes — at every cue name, for every chunk size. -/
+theorem wh_b2r_continue (p : DupPolicy) (eta β₁ β₂ lam : R) (ot : VecTable R) (hndo : ot.names.Nodup)
+    (chunk : Nat) (hc : 1 ≤ chunk) (w : LW R) (hwn : w.cues.Nodup) (es es' : List (Event String String))
     (htabo : ∀ e ∈ es, ∀ o ∈ e.outcomes, o ∈ ot.names)
     (hp : applyPolicyAll p es = some es') (hlab : w.outcomes = ot.dims) :
     ∃ r, whModel .b2r p eta β₁ β₂ lam none (some ot) chunk (some w) es = .ok r ∧
@@ -284,8 +344,8 @@ theorem wh_b2r_continue (p : DupPolicy) (eta β₁ β₂ lam : R) (ot : VecTable
       ∀ d, d < ot.dims.length → r.byCue d = whB2RSpecFrom eta ot w.byCue es' d :=
   whModel_b2r_continue p eta β₁ β₂ lam ot chunk hc w es es' htabo hp hlab
 
-theorem wh_b2r_continue_get (p : DupPolicy) (eta β₁ β₂ lam : R) (ot : VecTable R)
-    (chunk : Nat) (hc : 1 ≤ chunk) (w : LW R) (es es' : List (Event String String))
+theorem wh_b2r_continue_get (p : DupPolicy) (eta β₁ β₂ lam : R) (ot : VecTable R) (hndo : ot.names.Nodup)
+    (chunk : Nat) (hc : 1 ≤ chunk) (w : LW R) (hwn : w.cues.Nodup) (es es' : List (Event String String))
     (htabo : ∀ e ∈ es, ∀ o ∈ e.outcomes, o ∈ ot.names)
     (hp : applyPolicyAll p es = some es') (hlab : w.outcomes = ot.dims) :
     ∃ r, whModel .b2r p eta β₁ β₂ lam none (some ot) chunk (some w) es = .ok r ∧
@@ -293,32 +353,61 @@ theorem wh_b2r_continue_get (p : DupPolicy) (eta β₁ β₂ lam : R) (ot : VecT
         then whB2RSpecFrom eta ot w.byCue es' (ot.dims.idxOf dl) c else 0 :=
   whModel_b2r_continue_get p eta β₁ β₂ lam ot chunk hc w es es' htabo hp hlab
 
-/-- **continued `wh.wh`, real → real** (`weights = w`).  Hypotheses: `hc`, `hp`,
-    both table checks; `hlo`, `hlc` the labels of `w` are the vector dimensions
-    of the two tables; `hsz` `w` has the shape its labels announce
-    (`weights.shape == shape` in wh.py; the given array is used as it is). -/
+/-- **continued `wh.wh`, real → real** (`weights = w`), as general as the code:
+    the given weights are SELECTED BY LABEL (`weights.loc[…]`, wh.py 834), any
+    permutation of the tables' dimension labels is accepted and re-aligned.
+    Hypotheses: `hndc`, `hndo` distinct row labels of the tables (file header);
+    `hc`, `hp`, both table checks; `hpo`, `hpc` the labels of `w` are the vector
+    dimensions of the two tables in ANY order; `hno`, `hnc` the dimension labels
+    are distinct.  (`wh_continue_label_check_r2r`: exactly these `w` are
+    accepted.)  Nothing is assumed about the size of the value array.
+    Conclusion: the result is labelled with the tables' dimensions in the
+    tables' order, and for every outcome vector dimension `d` the row it denotes
+    (`LW.byPos`) is `whR2RSpecFrom` continued from the given weights READ AT THE
+    LABELS (`LW.atLabels`: cell `(d, k)` = `w.get ot.dims[d] ct.dims[k]`). -/
 theorem wh_r2r_continue (p : DupPolicy) (eta β₁ β₂ lam : R) (ct ot : VecTable R)
+    (hndc : ct.names.Nodup) (hndo : ot.names.Nodup)
+    (chunk : Nat) (hc : 1 ≤ chunk) (w : LW R) (es es' : List (Event String String))
+    (htabc : ∀ e ∈ es, ∀ c ∈ e.cues, c ∈ ct.names)
+    (htabo : ∀ e ∈ es, ∀ o ∈ e.outcomes, o ∈ ot.names)
+    (hp : applyPolicyAll p es = some es')
+    (hpo : w.outcomes.Perm ot.dims) (hpc : w.cues.Perm ct.dims)
+    (hno : ot.dims.Nodup) (hnc : ct.dims.Nodup) :
+    ∃ r, whModel .r2r p eta β₁ β₂ lam (some ct) (some ot) chunk (some w) es = .ok r ∧
+      r.outcomes = ot.dims ∧ r.cues = ct.dims ∧
+      r.vals.size = r.outcomes.length * r.cues.length ∧
+      ∀ d, d < ot.dims.length →
+        r.byPos d = whR2RSpecFrom eta ct ot (w.atLabels ot.dims ct.dims) es' d :=
+  whModel_r2r_continue_perm p eta β₁ β₂ lam ct ot chunk hc w es es' htabc htabo hp hpo hpc hno hnc
+
+theorem wh_r2r_continue_get (p : DupPolicy) (eta β₁ β₂ lam : R) (ct ot : VecTable R)
+    (hndc : ct.names.Nodup) (hndo : ot.names.Nodup)
+    (chunk : Nat) (hc : 1 ≤ chunk) (w : LW R) (es es' : List (Event String String))
+    (htabc : ∀ e ∈ es, ∀ c ∈ e.cues, c ∈ ct.names)
+    (htabo : ∀ e ∈ es, ∀ o ∈ e.outcomes, o ∈ ot.names)
+    (hp : applyPolicyAll p es = some es')
+    (hpo : w.outcomes.Perm ot.dims) (hpc : w.cues.Perm ct.dims)
+    (hno : ot.dims.Nodup) (hnc : ct.dims.Nodup) :
+    ∃ r, whModel .r2r p eta β₁ β₂ lam (some ct) (some ot) chunk (some w) es = .ok r ∧
+      ∀ dlo dlc, r.get dlo dlc = if dlo ∈ ot.dims ∧ dlc ∈ ct.dims
+        then whR2RSpecFrom eta ct ot (w.atLabels ot.dims ct.dims) es'
+          (ot.dims.idxOf dlo) (ct.dims.idxOf dlc) else 0 :=
+  whModel_r2r_continue_perm_get p eta β₁ β₂ lam ct ot chunk hc w es es' htabc htabo hp hpo hpc hno hnc
+
+/-- … the case of identical label lists (chains): position = label, the given
+    weights enter as what they denote by position (`LW.byPos`) -/
+theorem wh_r2r_continue_same_labels (p : DupPolicy) (eta β₁ β₂ lam : R) (ct ot : VecTable R)
+    (hndc : ct.names.Nodup) (hndo : ot.names.Nodup)
     (chunk : Nat) (hc : 1 ≤ chunk) (w : LW R) (es es' : List (Event String String))
     (htabc : ∀ e ∈ es, ∀ c ∈ e.cues, c ∈ ct.names)
     (htabo : ∀ e ∈ es, ∀ o ∈ e.outcomes, o ∈ ot.names)
     (hp : applyPolicyAll p es = some es') (hlo : w.outcomes = ot.dims) (hlc : w.cues = ct.dims)
-    (hsz : w.vals.size = w.outcomes.length * w.cues.length) :
+    (hno : ot.dims.Nodup) (hnc : ct.dims.Nodup) :
     ∃ r, whModel .r2r p eta β₁ β₂ lam (some ct) (some ot) chunk (some w) es = .ok r ∧
       r.outcomes = ot.dims ∧ r.cues = ct.dims ∧
       r.vals.size = r.outcomes.length * r.cues.length ∧
       ∀ d, d < ot.dims.length → r.byPos d = whR2RSpecFrom eta ct ot w.byPos es' d :=
-  whModel_r2r_continue p eta β₁ β₂ lam ct ot chunk hc w es es' htabc htabo hp hlo hlc hsz
-
-theorem wh_r2r_continue_get (p : DupPolicy) (eta β₁ β₂ lam : R) (ct ot : VecTable R)
-    (chunk : Nat) (hc : 1 ≤ chunk) (w : LW R) (es es' : List (Event String String))
-    (htabc : ∀ e ∈ es, ∀ c ∈ e.cues, c ∈ ct.names)
-    (htabo : ∀ e ∈ es, ∀ o ∈ e.outcomes, o ∈ ot.names)
-    (hp : applyPolicyAll p es = some es') (hlo : w.outcomes = ot.dims) (hlc : w.cues = ct.dims)
-    (hsz : w.vals.size = w.outcomes.length * w.cues.length) :
-    ∃ r, whModel .r2r p eta β₁ β₂ lam (some ct) (some ot) chunk (some w) es = .ok r ∧
-      ∀ dlo dlc, r.get dlo dlc = if dlo ∈ ot.dims ∧ dlc ∈ ct.dims
-        then whR2RSpecFrom eta ct ot w.byPos es' (ot.dims.idxOf dlo) (ct.dims.idxOf dlc) else 0 :=
-  whModel_r2r_continue_get p eta β₁ β₂ lam ct ot chunk hc w es es' htabc htabo hp hlo hlc hsz
+  whModel_r2r_continue p eta β₁ β₂ lam ct ot chunk hc w es es' htabc htabo hp hlo hlc hno hnc
 
 /-- what "the weight function `w` denotes" means in terms of labels: with
     duplicate-free real-side labels, position `k` / `d` holds the weight read at
@@ -331,37 +420,139 @@ theorem wh_denotation_is_get (w : LW R) :
   ⟨fun hn o k hk => LW.byOutcome_eq_get w hn o k hk, fun hn d hd c => LW.byCue_eq_get w hn d hd c,
     fun hno hnc d k hd hk => LW.byPos_eq_get w hno hnc d k hd hk⟩
 
-/-- **wrong real-side labels ⇒ `ValueError`**, all three flavours, whatever the
-    events, policy and chunk size -/
-theorem wh_continue_wrong_labels_raise (p : DupPolicy) (eta β₁ β₂ lam : R) (ct ot : VecTable R)
+/-! ### the label check of the given weights, per flavour
+
+  These three theorems REPLACE `wh_continue_wrong_labels_raise`, which stated
+  "`w.cues ≠ ct.dims` / `w.outcomes ≠ ot.dims` ⇒ `ValueError`" for all three
+  flavours and was FALSE about the code for real → binary (such weights are
+  accepted and used by position) and real → real (permuted labels are
+  re-aligned, missing ones raise `KeyError`).  The model was repaired to say
+  what the code does (PyndlModel/WHModel.lean); all claims below were
+  reproduced on the real code. -/
+
+/-- **binary → real: the label lists are compared** (`.values.tolist()`, wh.py 429).
+    Whatever the events, policy and chunk size: different row labels ⇒
+    `ValueError`; and a successful call implies identical labels (with
+    `wh_b2r_continue`: given the other hypotheses, accepted IFF identical). -/
+theorem wh_continue_label_check_b2r (p : DupPolicy) (eta β₁ β₂ lam : R) (ot : VecTable R)
     (chunk : Nat) (w : LW R) (es : List (Event String String)) :
-    (w.cues ≠ ct.dims →
-      whModel .r2b p eta β₁ β₂ lam (some ct) none chunk (some w) es = .error .value) ∧
     (w.outcomes ≠ ot.dims →
       whModel .b2r p eta β₁ β₂ lam none (some ot) chunk (some w) es = .error .value) ∧
-    (w.outcomes ≠ ot.dims ∨ w.cues ≠ ct.dims →
-      whModel .r2r p eta β₁ β₂ lam (some ct) (some ot) chunk (some w) es = .error .value) :=
-  ⟨whModel_r2b_labelError p eta β₁ β₂ lam ct chunk w es, whModel_b2r_labelError p eta β₁ β₂ lam ot chunk w es,
-    whModel_r2r_labelError p eta β₁ β₂ lam ct ot chunk w es⟩
+    (∀ r, whModel .b2r p eta β₁ β₂ lam none (some ot) chunk (some w) es = .ok r → w.outcomes = ot.dims) :=
+  ⟨whModel_b2r_labelError p eta β₁ β₂ lam ot chunk w es,
+    fun r h => whModel_b2r_ok_only_if p eta β₁ β₂ lam ot chunk w es r h⟩
+
+/-- **real → binary: the column labels of the given weights are IGNORED.**
+    Whatever the events, policy and chunk size:
+    (1) a different NUMBER of columns ⇒ `ValueError` (`np.concatenate`);
+    (2) the label comparison itself raises ⇒ `ValueError` (`alignRaises`: the
+        lists differ and one repeats a label);
+    (3) otherwise the call behaves EXACTLY (same result or same error) like
+        the call with the same values labelled with the table's dimensions —
+        e.g. weights labelled `['z0','z1']` or `['k1','k0']` against a table
+        with dimensions `['k0','k1']` are accepted and used by position;
+    (4) a successful call implies (1) and (2) do not apply. -/
+theorem wh_continue_label_check_r2b (p : DupPolicy) (eta β₁ β₂ lam : R) (ct : VecTable R)
+    (chunk : Nat) (w : LW R) (es : List (Event String String)) :
+    (w.cues.length ≠ ct.dims.length →
+      whModel .r2b p eta β₁ β₂ lam (some ct) none chunk (some w) es = .error .value) ∧
+    (alignRaises ct.dims w.cues →
+      whModel .r2b p eta β₁ β₂ lam (some ct) none chunk (some w) es = .error .value) ∧
+    (w.cues.length = ct.dims.length → ¬ alignRaises ct.dims w.cues →
+      whModel .r2b p eta β₁ β₂ lam (some ct) none chunk (some w) es
+        = whModel .r2b p eta β₁ β₂ lam (some ct) none chunk (some ⟨w.outcomes, ct.dims, w.vals⟩) es) ∧
+    (∀ r, whModel .r2b p eta β₁ β₂ lam (some ct) none chunk (some w) es = .ok r →
+      w.cues.length = ct.dims.length ∧ ¬ alignRaises ct.dims w.cues) :=
+  ⟨whModel_r2b_widthError p eta β₁ β₂ lam ct chunk w es, whModel_r2b_alignError p eta β₁ β₂ lam ct chunk w es,
+    whModel_r2b_labels_ignored p eta β₁ β₂ lam ct chunk w es,
+    fun r h => whModel_r2b_ok_only_if p eta β₁ β₂ lam ct chunk w es r h⟩
+
+/-- **real → real: the given weights are selected by label.**
+    (1) a different shape ⇒ `ValueError` (whatever else);
+    (2) a label comparison raises (`alignRaises` on one axis) ⇒ `ValueError`
+        (whatever else);
+    (3) table checks passed, shape fits, all four label lists duplicate-free,
+        but the weights lack a dimension label of a table ⇒ `KeyError`;
+    (4) table checks passed, label lists identical, but one repeats a label ⇒
+        pandas `InvalidIndexError` (error class `other`);
+    (5) a successful call implies that the labels of `w` are permutations of the
+        tables' dimension labels and these are duplicate-free — the hypotheses
+        of `wh_r2r_continue`, under which the call succeeds and re-aligns. -/
+theorem wh_continue_label_check_r2r (p : DupPolicy) (eta β₁ β₂ lam : R) (ct ot : VecTable R)
+    (chunk : Nat) (w : LW R) (es : List (Event String String)) :
+    (w.outcomes.length ≠ ot.dims.length ∨ w.cues.length ≠ ct.dims.length →
+      whModel .r2r p eta β₁ β₂ lam (some ct) (some ot) chunk (some w) es = .error .value) ∧
+    (alignRaises ot.dims w.outcomes ∨ alignRaises ct.dims w.cues →
+      whModel .r2r p eta β₁ β₂ lam (some ct) (some ot) chunk (some w) es = .error .value) ∧
+    ((∀ e ∈ es, ∀ c ∈ e.cues, c ∈ ct.names) → (∀ e ∈ es, ∀ o ∈ e.outcomes, o ∈ ot.names) →
+      w.outcomes.length = ot.dims.length → w.cues.length = ct.dims.length →
+      ot.dims.Nodup → ct.dims.Nodup → w.outcomes.Nodup → w.cues.Nodup →
+      (∃ d ∈ ot.dims, d ∉ w.outcomes) ∨ (∃ d ∈ ct.dims, d ∉ w.cues) →
+      whModel .r2r p eta β₁ β₂ lam (some ct) (some ot) chunk (some w) es = .error .key) ∧
+    ((∀ e ∈ es, ∀ c ∈ e.cues, c ∈ ct.names) → (∀ e ∈ es, ∀ o ∈ e.outcomes, o ∈ ot.names) →
+      w.outcomes = ot.dims → w.cues = ct.dims → ¬ ot.dims.Nodup ∨ ¬ ct.dims.Nodup →
+      whModel .r2r p eta β₁ β₂ lam (some ct) (some ot) chunk (some w) es = .error .other) ∧
+    (∀ r, whModel .r2r p eta β₁ β₂ lam (some ct) (some ot) chunk (some w) es = .ok r →
+      w.outcomes.Perm ot.dims ∧ w.cues.Perm ct.dims ∧ ot.dims.Nodup ∧ ct.dims.Nodup) :=
+  ⟨whModel_r2r_shapeError p eta β₁ β₂ lam ct ot chunk w es,
+    whModel_r2r_alignError p eta β₁ β₂ lam ct ot chunk w es,
+    fun a b c d e f g h i => whModel_r2r_keyError p eta β₁ β₂ lam ct ot chunk w es a b c d e f g h i,
+    fun a b c d e => whModel_r2r_dupError p eta β₁ β₂ lam ct ot chunk w es a b c d e,
+    fun r h => whModel_r2r_ok_only_if p eta β₁ β₂ lam ct ot chunk w es r h⟩
+
+/-- **every matrix `wh.wh` returns is labelled with the table's dimensions** on
+    its real side(s) (`RealLabelsMatch`), whatever it was given — no hypothesis -/
+theorem wh_result_carries_table_labels (fl : WhFlavour) (p : DupPolicy) (eta β₁ β₂ lam : R)
+    (cueTab outTab : Option (VecTable R)) (chunk : Nat) (W0 : Option (LW R))
+    (es : List (Event String String)) (r : LW R)
+    (h : whModel fl p eta β₁ β₂ lam cueTab outTab chunk W0 es = .ok r) :
+    RealLabelsMatch fl cueTab outTab r :=
+  whModel_ok_labels fl p eta β₁ β₂ lam cueTab outTab chunk W0 es r h
+
+/-- **inside a chain every `weights=` argument has the table's labels**: for a
+    chain from `weights=None` split anywhere into `ps₁ ++ ps₂`, the state handed
+    from `ps₁` to the first call of `ps₂` has real-side labels IDENTICAL to the
+    table's dimension labels.  So the label-tolerant behaviour of
+    `wh_continue_label_check_r2b` (3) and the re-alignment of `wh_r2r_continue`
+    are never exercised by a chain: the chain theorems below are unaffected by
+    the repair of the model.  No hypothesis on events, policies, chunk sizes. -/
+theorem wh_chain_weights_carry_table_labels (fl : WhFlavour) (eta β₁ β₂ lam : R)
+    (cueTab outTab : Option (VecTable R)) (ps₁ ps₂ : List WhPart) (s : Option (LW R))
+    (h : whChainRun fl eta β₁ β₂ lam cueTab outTab none (ps₁ ++ ps₂) = .ok s) :
+    ∃ s₁, whChainRun fl eta β₁ β₂ lam cueTab outTab none ps₁ = .ok s₁ ∧
+      whChainRun fl eta β₁ β₂ lam cueTab outTab s₁ ps₂ = .ok s ∧
+      (∀ w, s₁ = some w → RealLabelsMatch fl cueTab outTab w) ∧
+      (∀ w, s = some w → RealLabelsMatch fl cueTab outTab w) := by
+  rw [whChainRun_append] at h
+  cases h1 : whChainRun fl eta β₁ β₂ lam cueTab outTab none ps₁ with
+  | error e => rw [h1] at h; cases h
+  | ok s₁ =>
+    rw [h1] at h
+    have l1 := whChainRun_state_labels fl eta β₁ β₂ lam cueTab outTab ps₁ none s₁ (fun w hw => by cases hw) h1
+    exact ⟨s₁, rfl, h, l1, whChainRun_state_labels fl eta β₁ β₂ lam cueTab outTab ps₂ s₁ s l1 h⟩
 
 /-- **`weights=None` is the empty / zero matrix**: from scratch, each flavour
     behaves exactly (same result or same error) like a call continued from the
-    matrix with no binary-side labels (real → real: the zero matrix) -/
+    matrix with no binary-side labels (real → real: the zero matrix; there for
+    tables with distinct dimension labels — with a repeated label the continued
+    call raises, `wh_continue_label_check_r2r` (4), the call from scratch does not) -/
 theorem wh_none_is_empty_matrix (p : DupPolicy) (eta β₁ β₂ lam : R) (ct ot : VecTable R)
     (chunk : Nat) (es : List (Event String String)) :
     whModel .r2b p eta β₁ β₂ lam (some ct) none chunk none es
       = whModel .r2b p eta β₁ β₂ lam (some ct) none chunk (some ⟨[], ct.dims, #[]⟩) es ∧
     whModel .b2r p eta β₁ β₂ lam none (some ot) chunk none es
       = whModel .b2r p eta β₁ β₂ lam none (some ot) chunk (some ⟨ot.dims, [], #[]⟩) es ∧
-    whModel .r2r p eta β₁ β₂ lam (some ct) (some ot) chunk none es
-      = whModel .r2r p eta β₁ β₂ lam (some ct) (some ot) chunk
-          (some ⟨ot.dims, ct.dims, Array.replicate (ot.dims.length * ct.dims.length) 0⟩) es :=
+    (ot.dims.Nodup → ct.dims.Nodup →
+      whModel .r2r p eta β₁ β₂ lam (some ct) (some ot) chunk none es
+        = whModel .r2r p eta β₁ β₂ lam (some ct) (some ot) chunk
+            (some ⟨ot.dims, ct.dims, Array.replicate (ot.dims.length * ct.dims.length) 0⟩) es) :=
   ⟨whModel_r2b_none p eta β₁ β₂ lam ct chunk es, whModel_b2r_none p eta β₁ β₂ lam ot chunk es,
     whModel_r2r_none p eta β₁ β₂ lam ct ot chunk es⟩
 
 /-- **a chain of two `wh.wh` calls** (any flavour `fl` with its tables,
-    `WhTablesOK`: the tables fit the flavour and every name on a real side of the
-    events has a row; per call its own duplicate policy and chunk size ≥ 1): the
+    `WhTablesOK`: the tables fit the flavour, their row labels are distinct,
+    every name on a real side of the events has a row and — real → real — the
+    dimension labels are distinct; per call its own duplicate policy and chunk size ≥ 1): the
     first call from `weights=None`, the second from what the first returned —
     both succeed and the second result is, at EVERY pair of labels, the
     specification of the flavour (`whSpecGet`: `whR2BSpec` / `whB2RSpec` /
@@ -412,9 +603,13 @@ theorem wh_chain_two_labels (eta β₁ β₂ lam : R) (ct ot : VecTable R) (p₁
 
     Hypotheses: `hp` every part is accepted by ITS duplicate policy, `es'` is the
     concatenation of the policy-processed parts; `hchunk` every
-    `n_outcomes_per_job ≥ 1`; `htab` the tables fit the flavour and every name
-    on a real side of the whole file has a row in its table (`ValueError`
-    otherwise).  Nothing is assumed about the intermediate matrices.
+    `n_outcomes_per_job ≥ 1`; `htab` (`WhTablesOK`) the tables fit the flavour,
+    their row labels are distinct, every name on a real side of the whole file
+    has a row in its table (`ValueError` otherwise) and — real → real only —
+    the dimension labels of both tables are distinct (otherwise the second call
+    raises `InvalidIndexError`, `wh_continue_label_check_r2r` (4)).  Nothing is
+    assumed about the intermediate matrices
+    (`wh_chain_weights_carry_table_labels`).
 
     Conclusion: the chain runs through and its result, read through its labels,
     is at EVERY pair of labels the specification of the flavour from zero
@@ -465,20 +660,20 @@ theorem wh_r2b_chain_from (eta β₁ β₂ lam : R) (ct : VecTable R) (parts : L
       optByOutcome s' = whR2BSpecFrom β₁ β₂ lam ct (optByOutcome s) es' :=
   whChainRun_r2b_spec eta β₁ β₂ lam ct parts s hs es' hp hchunk htab
 
-/-- … real → real -/
-theorem wh_r2r_chain_from (eta β₁ β₂ lam : R) (ct ot : VecTable R) (parts : List WhPart)
+/-- … real → real (`hno`, `hnc`: distinct dimension labels, needed by every
+    continued call; the former size hypothesis on the given weights is gone) -/
+theorem wh_r2r_chain_from (eta β₁ β₂ lam : R) (ct ot : VecTable R)
+    (hno : ot.dims.Nodup) (hnc : ct.dims.Nodup) (parts : List WhPart)
     (s : Option (LW R))
-    (hs : ∀ w, s = some w → w.outcomes = ot.dims ∧ w.cues = ct.dims ∧
-      w.vals.size = w.outcomes.length * w.cues.length)
+    (hs : ∀ w, s = some w → w.outcomes = ot.dims ∧ w.cues = ct.dims)
     (es' : List (Event String String)) (hp : whChainPolicy parts = some es')
     (hchunk : ∀ pt ∈ parts, 1 ≤ pt.chunk)
     (htabc : ∀ pt ∈ parts, ∀ e ∈ pt.events, ∀ c ∈ e.cues, c ∈ ct.names)
     (htabo : ∀ pt ∈ parts, ∀ e ∈ pt.events, ∀ o ∈ e.outcomes, o ∈ ot.names) :
     ∃ s', whChainRun .r2r eta β₁ β₂ lam (some ct) (some ot) s parts = .ok s' ∧
-      (∀ w, s' = some w → w.outcomes = ot.dims ∧ w.cues = ct.dims ∧
-        w.vals.size = w.outcomes.length * w.cues.length) ∧
+      (∀ w, s' = some w → w.outcomes = ot.dims ∧ w.cues = ct.dims) ∧
       ∀ d, d < ot.dims.length → optByPos s' d = whR2RSpecFrom eta ct ot (optByPos s) es' d :=
-  whChainRun_r2r_spec eta β₁ β₂ lam ct ot parts s hs es' hp hchunk htabc htabo
+  whChainRun_r2r_spec eta β₁ β₂ lam ct ot hno hnc parts s hs es' hp hchunk htabc htabo
 
 /-! ### non-vacuity of the chain theorems (ℤ, tiny tables) -/
 
@@ -567,12 +762,110 @@ example :
   wh_chain_any_length .r2r 1 0 0 0 (some exCT) (some exOT) exR2R _ (by decide +kernel) (by decide)
     (by decide +kernel)
 
-/-- wrong real-side labels in the given weights: `ValueError` -/
+/-! ### non-vacuity of the label-check theorems: the inputs the review used -/
+
+def showErr : Except Err (LW ℤ) → Option Err
+  | .ok _ => none
+  | .error e => some e
+
+/-- binary → real: wrong or permuted row labels ⇒ `ValueError` -/
 example :
-    showCall (whModel .b2r .keep (1 : ℤ) 0 0 0 none (some exOT) 1
-      (some ⟨["d0", "WRONG"], ["a"], #[1, 2]⟩) [⟨["a"], ["x"]⟩]) = none ∧
     whModel .b2r .keep (1 : ℤ) 0 0 0 none (some exOT) 1
-      (some ⟨["d0", "WRONG"], ["a"], #[1, 2]⟩) [⟨["a"], ["x"]⟩] = .error .value :=
-  ⟨by decide +kernel, whModel_b2r_labelError _ _ _ _ _ _ _ _ _ (by decide)⟩
+      (some ⟨["d0", "WRONG"], ["a"], #[1, 2]⟩) [⟨["a"], ["x"]⟩] = .error .value ∧
+    whModel .b2r .keep (1 : ℤ) 0 0 0 none (some exOT) 1
+      (some ⟨["d1", "d0"], ["a"], #[1, 2]⟩) [⟨["a"], ["x"]⟩] = .error .value :=
+  ⟨(wh_continue_label_check_b2r _ _ _ _ _ _ _ _ _).1 (by decide),
+    (wh_continue_label_check_b2r _ _ _ _ _ _ _ _ _).1 (by decide)⟩
+
+/-- real → binary: weights labelled `z0, z1` (or permuted `k1, k0`) against the
+    table dimensions `k0, k1` are ACCEPTED, used by position and relabelled —
+    the same matrix as for correctly labelled weights (the real code returns
+    `[[0.4, 1.7]]` labelled `k0, k1` for all three with η = 0.1, weights `[[1, 2]]`,
+    event `a_b → x`; here η = 1 over ℤ) -/
+example :
+    showCall (whModel .r2b .keep (0 : ℤ) 1 1 3 (some exCT) none 1
+      (some ⟨["x"], ["z0", "z1"], #[1, 2]⟩) [⟨["a", "b"], ["x"]⟩]) = some (["x"], ["k0", "k1"], #[-1, 1]) ∧
+    showCall (whModel .r2b .keep (0 : ℤ) 1 1 3 (some exCT) none 1
+      (some ⟨["x"], ["k1", "k0"], #[1, 2]⟩) [⟨["a", "b"], ["x"]⟩]) = some (["x"], ["k0", "k1"], #[-1, 1]) ∧
+    showCall (whModel .r2b .keep (0 : ℤ) 1 1 3 (some exCT) none 1
+      (some ⟨["x"], ["k0", "k1"], #[1, 2]⟩) [⟨["a", "b"], ["x"]⟩]) = some (["x"], ["k0", "k1"], #[-1, 1]) ∧
+    -- a different number of columns, or a repeated label in differing lists: ValueError
+    showErr (whModel .r2b .keep (0 : ℤ) 1 1 3 (some exCT) none 1
+      (some ⟨["x"], ["k0"], #[1]⟩) [⟨["a", "b"], ["x"]⟩]) = some .value ∧
+    showErr (whModel .r2b .keep (0 : ℤ) 1 1 3 (some exCT) none 1
+      (some ⟨["x"], ["k0", "k0"], #[1, 2]⟩) [⟨["a", "b"], ["x"]⟩]) = some .value :=
+  ⟨by decide +kernel, by decide +kernel, by decide +kernel, by decide +kernel, by decide +kernel⟩
+
+/-- `wh_r2b_continue` with EVERY hypothesis instantiated, on wrongly labelled
+    weights (`z0, z1`) and an event bringing the new outcome `y` -/
+example :
+    ∃ r, whModel .r2b .keep (0 : ℤ) 1 1 3 (some exCT) none 2 (some ⟨["x"], ["z0", "z1"], #[1, 2]⟩)
+        [⟨["a", "b"], ["x"]⟩, ⟨["c", "c"], ["y"]⟩] = .ok r ∧
+      r.outcomes = ["x"] ++ (countNames [⟨["a", "b"], ["x"]⟩, ⟨["c", "c"], ["y"]⟩]).2.filter
+        (fun o => !["x"].contains o) ∧
+      r.cues = exCT.dims ∧ r.vals.size = exCT.dims.length * r.outcomes.length ∧
+      r.byOutcome = whR2BSpecFrom 1 1 3 exCT (⟨["x"], ["z0", "z1"], #[1, 2]⟩ : LW ℤ).byOutcome
+        [⟨["a", "b"], ["x"]⟩, ⟨["c", "c"], ["y"]⟩] :=
+  wh_r2b_continue .keep 0 1 1 3 exCT (by decide) 2 (by decide) ⟨["x"], ["z0", "z1"], #[1, 2]⟩ (by decide)
+    _ _ (by decide +kernel) (by decide +kernel) (by decide) (by decide +kernel)
+
+/-- real → real: permuted labels are RE-ALIGNED (the real code: weights
+    `[[1,2],[3,4]]` labelled rows `d0,d1`, columns `k1,k0` are read as
+    `[[2,1],[4,3]]`), missing labels ⇒ `KeyError`, wrong shape ⇒ `ValueError`,
+    identical labels with a repeat ⇒ `InvalidIndexError` (class `other`) -/
+example :
+    showCall (whModel .r2r .keep (0 : ℤ) 0 0 0 (some exCT) (some exOT) 1
+      (some ⟨["d0", "d1"], ["k1", "k0"], #[1, 2, 3, 4]⟩) []) = some (["d0", "d1"], ["k0", "k1"], #[2, 1, 4, 3]) ∧
+    showCall (whModel .r2r .keep (0 : ℤ) 0 0 0 (some exCT) (some exOT) 1
+      (some ⟨["d1", "d0"], ["k1", "k0"], #[1, 2, 3, 4]⟩) []) = some (["d0", "d1"], ["k0", "k1"], #[4, 3, 2, 1]) ∧
+    showErr (whModel .r2r .keep (0 : ℤ) 0 0 0 (some exCT) (some exOT) 1
+      (some ⟨["d0", "d1"], ["z0", "z1"], #[1, 2, 3, 4]⟩) []) = some .key ∧
+    showErr (whModel .r2r .keep (0 : ℤ) 0 0 0 (some exCT) (some exOT) 1
+      (some ⟨["d0", "d1"], ["k0", "z1"], #[1, 2, 3, 4]⟩) []) = some .key ∧
+    showErr (whModel .r2r .keep (0 : ℤ) 0 0 0 (some exCT) (some exOT) 1
+      (some ⟨["d0"], ["k0", "k1"], #[1, 2]⟩) []) = some .value ∧
+    showErr (whModel .r2r .keep (0 : ℤ) 0 0 0 (some exCT) (some exOT) 1
+      (some ⟨["d0", "d1"], ["k0", "k0"], #[1, 2, 3, 4]⟩) []) = some .value ∧
+    showErr (whModel .r2r .keep (0 : ℤ) 0 0 0 (some ⟨["a"], ["k0", "k0"], #[1, 0]⟩) (some exOT) 1
+      (some ⟨["d0", "d1"], ["k0", "k0"], #[1, 2, 3, 4]⟩) []) = some .other :=
+  ⟨by decide +kernel, by decide +kernel, by decide +kernel, by decide +kernel, by decide +kernel,
+    by decide +kernel, by decide +kernel⟩
+
+/-- `wh_r2r_continue` with EVERY hypothesis instantiated on weights whose labels
+    are permuted on both axes -/
+example :
+    ∃ r, whModel .r2r .dedup (1 : ℤ) 0 0 0 (some exCT) (some exOT) 1
+        (some ⟨["d1", "d0"], ["k1", "k0"], #[1, 2, 3, 4]⟩) [⟨["a", "b", "a"], ["x"]⟩] = .ok r ∧
+      r.outcomes = exOT.dims ∧ r.cues = exCT.dims ∧
+      r.vals.size = r.outcomes.length * r.cues.length ∧
+      ∀ d, d < exOT.dims.length →
+        r.byPos d = whR2RSpecFrom 1 exCT exOT
+          ((⟨["d1", "d0"], ["k1", "k0"], #[1, 2, 3, 4]⟩ : LW ℤ).atLabels exOT.dims exCT.dims)
+          [⟨["a", "b"], ["x"]⟩] d :=
+  wh_r2r_continue .dedup 1 0 0 0 exCT exOT (by decide) (by decide) 1 (by decide) _ _ _
+    (by decide +kernel) (by decide +kernel) (by decide +kernel) (by decide) (by decide) (by decide) (by decide)
+
+/-- … and the numbers: the re-aligned start `[[4,3],[2,1]]`, then one delta step
+    with `x = a + b = (2, 1)`, `t = x = (1, 2)`: row 0: `a = 4·2+3·1 = 11`,
+    `u = 1 − 11 = −10` ⇒ `(4−20, 3−10)`; row 1: `a = 5`, `u = −3` ⇒ `(2−6, 1−3)` -/
+example :
+    showCall (whModel .r2r .dedup (1 : ℤ) 0 0 0 (some exCT) (some exOT) 1
+      (some ⟨["d1", "d0"], ["k1", "k0"], #[1, 2, 3, 4]⟩) [⟨["a", "b", "a"], ["x"]⟩])
+      = some (["d0", "d1"], ["k0", "k1"], #[-16, -7, -4, -2]) := by
+  decide +kernel
+
+/-- `wh_chain_weights_carry_table_labels` instantiated on the 3-part real →
+    binary chain split after its first part -/
+example :
+    ∃ s s₁, whChainRun .r2b (0 : ℤ) 1 1 3 (some exCT) none none (exR2B.take 1) = .ok s₁ ∧
+      whChainRun .r2b (0 : ℤ) 1 1 3 (some exCT) none s₁ (exR2B.drop 1) = .ok s ∧
+      (∀ w, s₁ = some w → RealLabelsMatch .r2b (some exCT) none w) ∧
+      (∀ w, s = some w → RealLabelsMatch .r2b (some exCT) none w) := by
+  obtain ⟨s, hs, _⟩ := wh_chain_any_length .r2b 0 1 1 3 (some exCT) none exR2B
+    [⟨["a", "b"], ["x"]⟩, ⟨["c", "a"], ["x", "y"]⟩, ⟨["b"], ["z"]⟩, ⟨["b", "b"], ["y"]⟩] (by decide +kernel)
+    (by decide) (by decide +kernel)
+  obtain ⟨s₁, a, b, c, d⟩ := wh_chain_weights_carry_table_labels .r2b 0 1 1 3 (some exCT) none
+    (exR2B.take 1) (exR2B.drop 1) s (by rw [List.take_append_drop]; exact hs)
+  exact ⟨s, s₁, a, b, c, d⟩
 
 end Pyndl.C08
